@@ -54,6 +54,16 @@ func (g *Gen) query(o *Oblig, extra string) string {
 			skip[i] = true
 		}
 	}
+	// what was asserted (and then assumed) at ANOTHER return statement is of no use here: that path
+	// has ended. Leaving those lines out changes nothing logically (they are guarded by that path's
+	// reach and were proved) and removes quantified facts that only feed the instantiation engine.
+	for _, r := range g.retLocal {
+		if r[2] != o.RetID {
+			for i := r[0]; i < r[1]; i++ {
+				skip[i] = true
+			}
+		}
+	}
 	for i, d := range g.defs[:n] {
 		if skip[i] {
 			continue
@@ -108,6 +118,7 @@ type solverSpec struct {
 	name string // label in the evidence
 	bin  string
 	args func(timeoutS int, file string) []string
+	late bool // third stage: joins only after 4 s (diversification against E-matching instability)
 }
 
 // z3-new/noflat: same solver with n-ary flattening of + / bvadd switched off, which keeps index
@@ -115,14 +126,23 @@ type solverSpec struct {
 var solvers = []solverSpec{
 	{"z3-new", "z3-new", func(t int, f string) []string {
 		return []string{fmt.Sprintf("-T:%d", t), "smt.random_seed=" + seedStr(), f}
-	}},
+	}, false},
 	{"z3-new/noflat", "z3-new", func(t int, f string) []string {
 		return []string{fmt.Sprintf("-T:%d", t), "rewriter.flat=false", "smt.random_seed=" + seedStr(), f}
-	}},
-	{"z3", "z3", func(t int, f string) []string { return []string{fmt.Sprintf("-T:%d", t), "smt.random_seed=" + seedStr(), f} }},
+	}, false},
+	{"z3", "z3", func(t int, f string) []string { return []string{fmt.Sprintf("-T:%d", t), "smt.random_seed=" + seedStr(), f} }, false},
 	{"cvc5", "cvc5", func(t int, f string) []string {
 		return []string{fmt.Sprintf("--tlimit=%d", t*1000), "--seed=" + seedStr(), f}
-	}},
+	}, false},
+	// the same solver with the quantifier engine restricted to E-matching and the other arithmetic
+	// core / another seed: goals with several quantified hypotheses are decided in < 1 s by one of
+	// these when the default configuration wanders. An answer from any configuration is an answer.
+	{"z3-new/as2", "z3-new", func(t int, f string) []string {
+		return []string{fmt.Sprintf("-T:%d", t), "smt.mbqi=false", "smt.arith.solver=2", "smt.random_seed=" + seedStr(), f}
+	}, true},
+	{"z3-new/ematch", "z3-new", func(t int, f string) []string {
+		return []string{fmt.Sprintf("-T:%d", t), "smt.mbqi=false", "smt.random_seed=3", f}
+	}, true},
 }
 
 func seedStr() string {
@@ -151,7 +171,7 @@ func raceSolvers(file string, timeoutS int) (status, solver, output string, dur 
 				case <-ctx.Done():
 					ch <- ans{"cancelled", sp.name, ""}
 					return
-				case <-time.After(1200 * time.Millisecond):
+				case <-time.After(map[bool]time.Duration{false: 1200 * time.Millisecond, true: 4 * time.Second}[sp.late]):
 				}
 			}
 			cmd := exec.CommandContext(ctx, sp.bin, sp.args(timeoutS, file)...)
